@@ -97,6 +97,27 @@ pub mod verif_clock {
         READS.with(|c| c.get())
     }
 
+    thread_local! {
+        static HIDDEN_RNG: Cell<u64> = const { Cell::new(0) };
+    }
+
+    /// Seed the per-thread RNG that replaces randomness drawn *inside dependencies*
+    /// (where no `rng` parameter exists to be used as a seam).
+    pub fn seed_hidden_rng(seed: u64) {
+        HIDDEN_RNG.with(|c| c.set(seed));
+    }
+
+    /// A fresh deterministic RNG; every call advances the per-thread state.
+    pub fn hidden_rng() -> rand::rngs::StdRng {
+        use rand::SeedableRng;
+        let s = HIDDEN_RNG.with(|c| {
+            let v = c.get();
+            c.set(v.wrapping_add(0x9E37_79B9_7F4A_7C15));
+            v
+        });
+        rand::rngs::StdRng::seed_from_u64(s)
+    }
+
     pub(super) fn tick() -> Option<u32> {
         READS.with(|c| c.set(c.get() + 1));
         CLOCK.with(|c| {
